@@ -461,17 +461,32 @@ fn replay_one(beh: &[Value], dir: &Path, seed: u64, steps: &mut u64) -> Result<(
                         }
                     }
                 }
+                let diff = |before: &BTreeMap<String, (u64, u64)>, after: &BTreeMap<String, (u64, u64)>| -> Vec<String> {
+                    after.iter().filter(|(k, v)| before.get(*k) != Some(v)).map(|(k, _)| k.clone())
+                        .chain(before.keys().filter(|k| !after.contains_key(*k)).map(|k| format!("-{k}"))).collect()
+                };
                 let before = dir_digest(dir);
                 let existed = dir.exists();
                 let (class, h) = try_open(dir, 60, seed.wrapping_add(attempts), workers);
                 last_res = class.clone();
                 let after = dir_digest(dir);
-                last_changed = if class == "ok" || !existed || !settled {
-                    Vec::new()
-                } else {
-                    after.iter().filter(|(k, v)| before.get(*k) != Some(v)).map(|(k, _)| k.clone())
-                        .chain(before.keys().filter(|k| !after.contains_key(*k)).map(|k| format!("-{k}"))).collect()
-                };
+                last_changed = if class == "ok" || !existed || !settled { Vec::new() } else { diff(&before, &after) };
+                // a change made by the refused attempt itself is deterministic; one made by a
+                // worker of the live instance that was slow to pick up its message is not:
+                // the refused attempt is repeated and must change the directory every time
+                let mut again = 0;
+                while !last_changed.is_empty() && again < 2 {
+                    again += 1;
+                    std::thread::sleep(Duration::from_millis(300));
+                    let b2 = dir_digest(dir);
+                    let r2 = Database::builder(dir).worker_threads_unchecked(0).open();
+                    let c2 = open_class(&r2);
+                    drop(r2);
+                    let a2 = dir_digest(dir);
+                    if c2 == "ok" || diff(&b2, &a2).is_empty() {
+                        last_changed.clear();
+                    }
+                }
                 if let Some(h) = h {
                     let addr = h.inst();
                     slots.insert(attempts, Slot { dbs: vec![h], kss: Vec::new(), addr });
